@@ -109,21 +109,21 @@ Definition reserved (L : lang) : list string :=
            "operator";"try";"catch";"throw";"using";"and";"or";"not";"xor";"asm";"export";"typename";"mutable";
            "explicit";"bitand";"bitor";"compl";"not_eq";"or_eq";"xor_eq";"and_eq";"nullptr";"constexpr";
            "decltype";"noexcept";"static_assert";"thread_local";"alignas";"alignof";"char16_t";"char32_t";"wchar_t";
-           "int8_t";"int16_t";"int32_t";"int64_t";"uint8_t";"uint16_t";"uint32_t";"uint64_t";"size_t";"NULL";
-           "m";"s";"ctx";"data";"fds";"descriptor";"field_descriptors";"main"]
+           "int8_t";"int16_t";"int32_t";"int64_t";"uint8_t";"uint16_t";"uint32_t";"uint64_t";"size_t";"NULL"]
   | LPy => ["False";"None";"True";"and";"as";"assert";"async";"await";"break";"class";"continue";"def";"del";"elif";
             "else";"except";"finally";"for";"from";"global";"if";"import";"in";"is";"lambda";"nonlocal";"not";"or";
             "pass";"raise";"return";"try";"while";"with";"yield";"_";
-            "self";"field";"json";"bp";"dataclass";"ClassVar";"Dict";"List";"Union";"IntEnum";"unique";"int";"bool";
+            (* names the generated module / class body itself uses *)
+            "field";"json";"bp";"dataclass";"ClassVar";"Dict";"List";"Union";"IntEnum";"unique";"int";"bool";
             "str";"bytearray";"property";"isinstance";"getattr";"range";"len";"BYTES_LENGTH";"encode";"decode";
             "bp_processor";"bp_set_byte";"bp_get_byte";"bp_get_accessor";"bp_process_int";"dict_factory";
-            "to_dict";"to_json";"di";"b";"s";"ctx";"lshift";"rshift";"val";"kv_pairs"]
+            "to_dict";"to_json"]
   | LGo => ["break";"default";"func";"interface";"select";"case";"defer";"go";"map";"struct";"chan";"else";"goto";
             "package";"switch";"const";"fallthrough";"if";"range";"type";"continue";"for";"import";"return";"var";
             "bool";"byte";"error";"int";"int8";"int16";"int32";"int64";"uint";"uint8";"uint16";"uint32";"uint64";
             "uintptr";"string";"rune";"true";"false";"nil";"iota";"len";"cap";"make";"new";"append";"copy";"panic";
             "bp";"json";"strconv";"formatInt";"jsonMarshal";"Size";"String";"Encode";"Decode";"BpProcessor";
-            "BpGetAccessor";"BpSetByte";"BpGetByte";"BpProcessInt";"m";"s";"di";"b";"v";"ctx";"lshift";"rshift";"main"]
+            "BpGetAccessor";"BpSetByte";"BpGetByte";"BpProcessInt"]
   end.
 Definition is_reserved (L : lang) (x : string) : bool := existsb (String.eqb x) (reserved L).
 
